@@ -205,7 +205,9 @@ fn case(ctx: &Ctx, bytes: &[u8]) -> Outcome {
 fn deep_case(ctx: &Ctx, bytes: &[u8]) -> Outcome {
     let mut c = Choices::new(bytes);
     let (budgets, label) = decode_budgets(&mut c);
-    let gc_at_pause = c.flip();
+    // a collection at every pause marks the whole (hundreds of frames deep) stack: with budgets of
+    // a few instructions one such case costs minutes, so those combine with larger budgets only
+    let gc_at_pause = c.flip() && budgets.iter().all(|b| *b >= 16);
     let forms = crate::props::c05::deep_program(&mut c);
     let globals = vec!["cd".to_string(), "log".to_string()];
     check(ctx, &forms, &globals, &budgets, label, gc_at_pause)
